@@ -633,11 +633,17 @@ class FingerprintDatabase(object):
 
     def _check_fingerprints_are_valid(self, fprints):
         """Check if passed fingerprints fit database."""
-        if fprints[0].level != self.level:
-            raise ValueError(
-                "Provided fingerprints must have database level"
-                " {}".format(self.level)
-            )
+        bits = self.bits if self.fp_num > 0 else fprints[0].bits
+        for fprint in fprints:
+            if fprint.level != self.level:
+                raise ValueError(
+                    "Provided fingerprints must have database level"
+                    " {}".format(self.level)
+                )
+            if fprint.bits != bits:
+                raise E3FPBitsValueError(
+                    "Provided fingerprints must have {} bits".format(bits)
+                )
         if self.fp_type is None:
             self.fp_type = fprints[0].__class__
         elif self.fp_type is not fprints[0].__class__:
